@@ -22,7 +22,8 @@ CONSTANTS NW,        \* number of workers (ranks 0..NW-1)
           MaxS,      \* stack ids 1..MaxS
           MaxTag,    \* thread tags 0..MaxTag (tag 0 = main thread)
           MaxObj,    \* ids of synchronisation objects 1..MaxObj
-          MaxL       \* spin-lock ids 1..MaxL
+          MaxL,      \* spin-lock ids 1..MaxL
+          MaxQ       \* sleep queue / sleep stack ids 1..MaxQ
 
 W   == 0..(NW-1)
 D   == 0..MaxD
@@ -30,6 +31,7 @@ S   == 0..MaxS
 Tag == 0..MaxTag
 Obj == 0..MaxObj
 L   == 0..MaxL
+Q   == 0..MaxQ
 
 VARIABLES
   cur,     \* cur[w]  : descriptor running on worker w (0 = scheduler)
@@ -45,18 +47,30 @@ VARIABLES
   nD, nS, nL, \* number of distinct records / stacks / locks ever seen
   anw,     \* number of workers of the armed run (<= NW)
   tg,      \* tg[t]   : per-tag ghost record (what the user program observed)
-  bad      \* "ok", or the first violated property-level assertion
+  bad,     \* "ok", or the first violated property-level assertion
+  \* ---- synchronisation primitives
+  mx,      \* mx[m]   : mutex state word = 2 * (threads blocked or about to block) + lock bit
+  sq,      \* sq[q]   : sleep queue (FIFO, Head = oldest) or sleep stack (Head = top)
+  ob,      \* ob.br[b] barrier count word, ob.jc[j] join-counter word, ob.uc[u] uncond slot,
+           \* ob.on[o] once state (0 init, 1 in progress, 2 completed), ob.fe[f] full/empty status
+  gh       \* ghosts for the user-visible properties of the primitives
 
-corevars == <<cur, got, cb, runq, th, lk, stk, freeD, freeS, flS, nD, nS, nL, anw, tg, bad>>
+sv == <<mx, sq, ob, gh>>
+corevars == <<cur, got, cb, runq, th, lk, stk, freeD, freeS, flS, nD, nS, nL, anw, tg, bad, sv>>
 
 \* ---------------------------------------------------------------- helpers
 Last(s)  == s[Len(s)]
 Front(s) == SubSeq(s, 1, Len(s) - 1)
 SeqSet(s) == {s[i] : i \in 1..Len(s)}
-P(k, x, y, z) == [k |-> k, x |-> x, y |-> y, z |-> z]
+P5(k, x, y, z, v) == [k |-> k, x |-> x, y |-> y, z |-> z, v |-> v]
+P(k, x, y, z) == P5(k, x, y, z, 0)
 User == P("user", 0, 0, 0)
-NoCb == [k |-> "none", t |-> 0, n |-> 0, x |-> 0, s |-> 0]
-Cb(k, t, n, x, s) == [k |-> k, t |-> t, n |-> n, x |-> x, s |-> s]
+NoP == P("none", 0, 0, 0)
+\* callback in progress: k kind, t thread being switched out, n next context (0 = scheduler),
+\* x auxiliary (join target / sleep queue / lock id), s stage, m mutex to release (block callbacks),
+\* p program counter of a protocol executed by the worker inside the callback (mutex unlock)
+NoCb == [k |-> "none", t |-> 0, n |-> 0, x |-> 0, s |-> 0, m |-> 0, p |-> NoP, kd |-> 0]
+Cb(k, t, n, x, s) == [k |-> k, t |-> t, n |-> n, x |-> x, s |-> s, m |-> 0, p |-> NoP, kd |-> 0]
 Flag(b) == IF b THEN 1 ELSE 0
 Fail(msg) == IF bad = "ok" THEN msg ELSE bad
 
@@ -65,7 +79,9 @@ F_PF == 1  F_DETACH == 2  F_STACK == 4  F_ATTR == 8  F_NULLID == 16
 HasFlag(f, b) == (f \div b) % 2 = 1
 
 NoTh == [st |-> "none", jt |-> 0, det |-> FALSE, res |-> 0, saved |-> FALSE,
-         pc |-> P("none", 0, 0, 0), tag |-> -1, stk |-> 0, lk |-> 0, fin |-> FALSE]
+         pc |-> P("none", 0, 0, 0), tag |-> -1, stk |-> 0, lk |-> 0, fin |-> FALSE,
+         rs |-> <<>>,      \* return stack of nested library protocols (continuation pcs)
+         wl |-> <<>>]      \* threads collected by a wake-many loop, not yet pushed
 NoStk == [st |-> "none", own |-> 0, lo |-> 0, hi |-> 0, kind |-> 0, idx |-> 0]
 NoTg == [par |-> -1, d |-> 0, ran |-> 0, reaped |-> 0, endv |-> 0, ended |-> FALSE,
          flags |-> 0, hs |-> "none", cell |-> 0]
@@ -75,6 +91,9 @@ Runs(w, t) == cur[w] = t /\ t # 0 /\ cb[w].k = "none" /\ got[w] = 0
 At(w, t, k) == Runs(w, t) /\ th[t].pc.k = k
 Idle(w) == cur[w] = 0 /\ cb[w].k = "none"
 SetPc(t, p) == [th EXCEPT ![t].pc = p]
+\* nested protocol: run 'callee' now, continue at 'cont' when it returns
+CallPc(t, callee, cont) == [th EXCEPT ![t].pc = callee, ![t].rs = <<cont>> \o @]
+RetPc(t) == [th EXCEPT ![t].pc = Head(th[t].rs), ![t].rs = Tail(@)]
 
 cur0 == [w \in W |-> 0]
 got0 == [w \in W |-> 0]
@@ -87,17 +106,30 @@ freeD0 == [w \in W |-> <<>>]
 freeS0 == [w \in W |-> <<>>]
 flS0 == [w \in W |-> [i \in 0..40 |-> <<>>]]
 tg0 == [t \in Tag |-> NoTg]
+mx0 == [m \in Obj |-> 0]
+sq0 == [q \in Q |-> <<>>]
+ob0 == [br |-> [o \in Obj |-> 0], jc |-> [o \in Obj |-> 0], uc |-> [o \in Obj |-> 0],
+        on |-> [o \in Obj |-> 0], fe |-> [o \in Obj |-> 0]]
+gh0 == [mown |-> [o \in Obj |-> 0],      \* descriptor holding mutex o (user level), 0 = free
+        bcall |-> [o \in Obj |-> 0], bret |-> [o \in Obj |-> 0], bser |-> [o \in Obj |-> 0],
+        jdec |-> [o \in Obj |-> 0],      \* decrements requested on join counter o
+        onrun |-> [o \in Obj |-> 0], ondone |-> [o \in Obj |-> 0],
+        ucsig |-> [o \in Obj |-> 0], ucwake |-> [o \in Obj |-> 0],
+        \* sleep queue / stack that belongs to each object (learnt at first use, then fixed)
+        qmx |-> [o \in Obj |-> 0], qcv |-> [o \in Obj |-> 0], qbr |-> [o \in Obj |-> 0], qjc |-> [o \in Obj |-> 0]]
 CoreInit ==
   /\ cur = cur0 /\ got = got0 /\ cb = cb0 /\ runq = runq0 /\ th = th0 /\ lk = lk0 /\ stk = stk0
   /\ freeD = freeD0 /\ freeS = freeS0 /\ flS = flS0
   /\ nD = 0 /\ nS = 0 /\ nL = 0 /\ anw = NW
   /\ tg = tg0 /\ bad = "ok"
+  /\ mx = mx0 /\ sq = sq0 /\ ob = ob0 /\ gh = gh0
 \* back to the initial state (between concatenated executions of a trace file)
 CoreReset ==
   /\ cur' = cur0 /\ got' = got0 /\ cb' = cb0 /\ runq' = runq0 /\ th' = th0 /\ lk' = lk0 /\ stk' = stk0
   /\ freeD' = freeD0 /\ freeS' = freeS0 /\ flS' = flS0
   /\ nD' = 0 /\ nS' = 0 /\ nL' = 0 /\ anw' = NW
   /\ tg' = tg0 /\ bad' = bad
+  /\ mx' = mx0 /\ sq' = sq0 /\ ob' = ob0 /\ gh' = gh0
 
 \* The main thread (tag 0) runs on worker w0 with record m; every other worker idle.
 Arm(n, w0, m) ==
@@ -106,7 +138,7 @@ Arm(n, w0, m) ==
   /\ th' = [th EXCEPT ![m] = [NoTh EXCEPT !.st = "ready", !.pc = P("start", 0, 0, 0), !.tag = 0]]
   /\ nD' = 1
   /\ tg' = [tg EXCEPT ![0] = [NoTg EXCEPT !.d = m, !.hs = "main"]]
-  /\ UNCHANGED <<got, cb, runq, lk, stk, freeD, freeS, flS, nS, nL, bad>>
+  /\ UNCHANGED <<got, cb, runq, lk, stk, freeD, freeS, flS, nS, nL, bad, sv>>
 
 \* ------------------------------------------------------------------ queues
 \* Abstract deque semantics; what happens next depends on who popped.
@@ -129,7 +161,7 @@ QPop(w, q, n) ==
              \/ /\ pc.k = "yd0" /\ ~PopDone(pc.y) /\ pc.x # 3   \* yield: local pop not tried yet; steal_only never pops
                 /\ (pc.x = 4 => StealDone(pc.y))                    \* steal_first: steal attempted before
                 /\ th' = SetPc(t, IF n # 0 THEN P("yd1", pc.x, pc.y, n) ELSE [pc EXCEPT !.y = @ + 1])
-  /\ UNCHANGED <<cur, cb, lk, stk, freeD, freeS, flS, nD, nS, nL, anw, tg, bad>>
+  /\ UNCHANGED <<cur, cb, lk, stk, freeD, freeS, flS, nD, nS, nL, anw, tg, bad, sv>>
 
 \* steal attempt on victim v's queue (by an idle worker, or by a yielding thread)
 QTake(w, v, n) ==
@@ -144,10 +176,21 @@ QTake(w, v, n) ==
           /\ (pc.x = 2 => PopDone(pc.y))                              \* local_first: pop tried before
           /\ (pc.x = 4 => ~PopDone(pc.y))
           /\ th' = SetPc(t, IF n # 0 THEN P("yd1", pc.x, pc.y, n) ELSE [pc EXCEPT !.y = @ + 2])
-  /\ UNCHANGED <<cur, cb, lk, stk, freeD, freeS, flS, nD, nS, nL, anw, tg, bad>>
+  /\ UNCHANGED <<cur, cb, lk, stk, freeD, freeS, flS, nD, nS, nL, anw, tg, bad, sv>>
 
 \* owner-side push: (a) create_1 callback pushes the parent, (b) parent-first create pushes the
 \* child, (c) a waker pushes a woken thread (sync primitives, stage "wk*")
+\* the agent executing library code on worker w: the running thread, or the worker itself
+\* while it executes a callback on the next context's stack
+InCb(w) == cb[w].k # "none"
+APc(w) == IF InCb(w) THEN cb[w].p ELSE th[cur[w]].pc
+Agent(w) == got[w] = 0 /\ (InCb(w) \/ cur[w] # 0)
+\* wake-up protocols end by returning to their caller
+AgentRet(w) == IF InCb(w) THEN th' = th /\ cb' = [cb EXCEPT ![w].p = P("mu9", 0, 0, 0)]
+               ELSE th' = RetPc(cur[w]) /\ cb' = cb
+AgentSet(w, p) == IF InCb(w) THEN th' = th /\ cb' = [cb EXCEPT ![w].p = p]
+                  ELSE th' = SetPc(cur[w], p) /\ cb' = cb
+
 QPush(w, q, d) ==
   /\ q = w /\ d # 0
   /\ \/ /\ cb[w].k = "create" /\ cb[w].t = d /\ th[d].saved      \* (a)
@@ -159,14 +202,26 @@ QPush(w, q, d) ==
         /\ runq' = [runq EXCEPT ![w] = Append(@, d)]
         /\ th' = SetPc(cur[w], [th[cur[w]].pc EXCEPT !.k = "cr4"])
         /\ UNCHANGED <<cur, cb>>
-  /\ UNCHANGED <<got, lk, stk, freeD, freeS, flS, nD, nS, nL, anw, tg, bad>>
+     \/ /\ Agent(w) /\ cb[w].k \in {"none", "block"} /\ th[d].saved                \* (c) a waker publishes a woken thread
+        /\ runq' = [runq EXCEPT ![w] = Append(@, d)] /\ cur' = cur
+        /\ LET pc == APc(w) IN
+           \/ /\ pc.k \in {"wo2", "us2"} /\ pc.z = d /\ AgentRet(w)
+           \/ /\ pc.k = "cs2" /\ pc.z = d /\ ~InCb(w)
+              /\ IF pc.y = 1 THEN th' = SetPc(cur[w], [pc EXCEPT !.k = "cs1", !.z = 0]) ELSE th' = RetPc(cur[w])
+              /\ cb' = cb
+           \/ /\ pc.k = "wm1" /\ ~InCb(w) /\ th[cur[w]].wl # <<>> /\ d = Head(th[cur[w]].wl)
+              /\ IF Len(th[cur[w]].wl) = 1
+                 THEN th' = [th EXCEPT ![cur[w]].wl = <<>>, ![cur[w]].pc = Head(th[cur[w]].rs), ![cur[w]].rs = Tail(@)]
+                 ELSE th' = [th EXCEPT ![cur[w]].wl = Tail(@)]
+              /\ cb' = cb
+  /\ UNCHANGED <<got, lk, stk, freeD, freeS, flS, nD, nS, nL, anw, tg, bad, sv>>
 
 \* base-side put by the yield callback
 QPut(w, q, d) ==
   /\ q = w /\ cb[w].k = "yield" /\ cb[w].t = d /\ cb[w].s = 0 /\ th[d].saved
   /\ runq' = [runq EXCEPT ![w] = <<d>> \o @]
   /\ cb' = [cb EXCEPT ![w].s = 1]
-  /\ UNCHANGED <<cur, got, th, lk, stk, freeD, freeS, flS, nD, nS, nL, anw, tg, bad>>
+  /\ UNCHANGED <<cur, got, th, lk, stk, freeD, freeS, flS, nD, nS, nL, anw, tg, bad, sv>>
 
 \* idle worker starts / resumes the thread it obtained
 SchedRun(w, n) ==
@@ -174,7 +229,7 @@ SchedRun(w, n) ==
   /\ th[n].saved /\ th[n].st = "ready"
   /\ cur' = [cur EXCEPT ![w] = n] /\ got' = [got EXCEPT ![w] = 0]
   /\ th' = [th EXCEPT ![n].saved = FALSE]
-  /\ UNCHANGED <<cb, runq, lk, stk, freeD, freeS, flS, nD, nS, nL, anw, tg, bad>>
+  /\ UNCHANGED <<cb, runq, lk, stk, freeD, freeS, flS, nD, nS, nL, anw, tg, bad, sv>>
 
 \* ------------------------------------------------------------- spin locks
 SpinAcq(w, l) ==
@@ -185,7 +240,7 @@ SpinAcq(w, l) ==
         /\ th' = SetPc(me, [pc EXCEPT !.k = "fin1"])
      \/ /\ pc.k \in {"jn0", "tj0", "dt1"} /\ th[pc.x].lk = l
         /\ th' = SetPc(me, [pc EXCEPT !.k = IF pc.k = "jn0" THEN "jn1" ELSE IF pc.k = "tj0" THEN "tj1" ELSE "dt2"])
-  /\ UNCHANGED <<cur, got, cb, runq, stk, freeD, freeS, flS, nD, nS, nL, anw, tg, bad>>
+  /\ UNCHANGED <<cur, got, cb, runq, stk, freeD, freeS, flS, nD, nS, nL, anw, tg, bad, sv>>
 
 \* release; the stage decides what the release completes
 SpinRel(w, l) ==
@@ -205,7 +260,7 @@ SpinRel(w, l) ==
                                                   [] pc.k = "dt3" -> "dt5"     \* finished: free the record
                                                   [] pc.k = "dt4" -> "dt9"])
         /\ cb' = cb
-  /\ UNCHANGED <<cur, got, runq, stk, freeD, freeS, flS, nD, nS, nL, anw, tg, bad>>
+  /\ UNCHANGED <<cur, got, runq, stk, freeD, freeS, flS, nD, nS, nL, anw, tg, bad, sv>>
 
 \* ------------------------------------------------------------------ create
 UCreateCall(w, ptag, ctag, flags) ==
@@ -213,7 +268,7 @@ UCreateCall(w, ptag, ctag, flags) ==
         /\ th' = SetPc(t, P("cr0", ctag, flags, 0))
   /\ tg[ctag].hs = "none"
   /\ tg' = [tg EXCEPT ![ctag] = [NoTg EXCEPT !.par = ptag, !.flags = flags, !.hs = "creating"]]
-  /\ UNCHANGED <<cur, got, cb, runq, lk, stk, freeD, freeS, flS, nD, nS, nL, anw, bad>>
+  /\ UNCHANGED <<cur, got, cb, runq, lk, stk, freeD, freeS, flS, nD, nS, nL, anw, bad, sv>>
 
 \* record allocation: reuse the head of this worker's free list; a fresh record only when it is empty
 DescAlloc(w, rank, c, l, fresh) ==
@@ -225,7 +280,7 @@ DescAlloc(w, rank, c, l, fresh) ==
           /\ freeD' = [freeD EXCEPT ![w] = Tail(@)] /\ UNCHANGED <<nD, nL>>
      ELSE /\ fresh = 1 /\ c = nD + 1 /\ l = nL + 1
           /\ nD' = nD + 1 /\ nL' = nL + 1 /\ freeD' = freeD
-  /\ UNCHANGED <<cur, got, cb, runq, lk, stk, freeS, flS, nS, anw, tg, bad>>
+  /\ UNCHANGED <<cur, got, cb, runq, lk, stk, freeS, flS, nS, anw, tg, bad, sv>>
 
 \* stack allocation. kind 0: default size from the free list, 1: default size fresh,
 \* 2: custom size (size class idx) from the per-class lists
@@ -248,7 +303,7 @@ StackAlloc(w, rank, s, lo, hi, kind, idx) ==
   /\ (stk[s].st = "free" => stk[s].lo = lo /\ stk[s].hi = hi)
   /\ stk' = [stk EXCEPT ![s] = [st |-> "live", own |-> 0, lo |-> lo, hi |-> hi, kind |-> kind, idx |-> idx]]
   /\ bad' = IF Overlaps(lo, hi) THEN Fail("C12: stack handed out overlaps a live stack") ELSE bad
-  /\ UNCHANGED <<cur, got, cb, runq, lk, freeD, nD, nL, anw, tg>>
+  /\ UNCHANGED <<cur, got, cb, runq, lk, freeD, nD, nL, anw, tg, sv>>
 
 \* child-first: about to save the parent's context and run the child on its new stack
 CreateCF(w, p, c, s, det, cds) ==
@@ -259,7 +314,7 @@ CreateCF(w, p, c, s, det, cds) ==
                                       !.det = HasFlag(th[p].pc.y, F_DETACH)]]
   /\ stk' = [stk EXCEPT ![s].own = c]
   /\ tg' = [tg EXCEPT ![th[p].pc.x].d = c, ![th[p].pc.x].hs = IF HasFlag(th[p].pc.y, F_DETACH) THEN "detached" ELSE "live"]
-  /\ UNCHANGED <<cur, got, cb, runq, lk, freeD, freeS, flS, nD, nS, nL, anw, bad>>
+  /\ UNCHANGED <<cur, got, cb, runq, lk, freeD, freeS, flS, nD, nS, nL, anw, bad, sv>>
 
 CreatePF(w, p, c, s, det, cds) ==
   /\ At(w, p, "cr2") /\ th[p].pc.z = c /\ th[c].stk = s /\ HasFlag(th[p].pc.y, F_PF)
@@ -270,17 +325,18 @@ CreatePF(w, p, c, s, det, cds) ==
                                       !.det = HasFlag(th[p].pc.y, F_DETACH)]]
   /\ stk' = [stk EXCEPT ![s].own = c]
   /\ tg' = [tg EXCEPT ![th[p].pc.x].d = c, ![th[p].pc.x].hs = IF HasFlag(th[p].pc.y, F_DETACH) THEN "detached" ELSE "live"]
-  /\ UNCHANGED <<cur, got, cb, runq, lk, freeD, freeS, flS, nD, nS, nL, anw, bad>>
+  /\ UNCHANGED <<cur, got, cb, runq, lk, freeD, freeS, flS, nD, nS, nL, anw, bad, sv>>
 
 UCreateRet(w, ptag, ctag) ==
   /\ \E t \in D : At(w, t, "cr4") /\ th[t].tag = ptag
         /\ ctag = th[t].pc.x
         /\ th' = SetPc(t, User)
-  /\ UNCHANGED <<cur, got, cb, runq, lk, stk, freeD, freeS, flS, nD, nS, nL, anw, tg, bad>>
+  /\ UNCHANGED <<cur, got, cb, runq, lk, stk, freeD, freeS, flS, nD, nS, nL, anw, tg, bad, sv>>
 
 \* ---------------------------------------------------- callbacks: enter / exit
 \* kinds: 1 create_1, 2 entry_point_1 (next thread), 3 entry_point_2 (scheduler),
-\*        4 join_2 (next thread), 5 join_3 (scheduler), 6 yield_ex_1
+\*        4 join_2 (next thread), 5 join_3 (scheduler), 6 yield_ex_1,
+\*        8 block_on_queue_cb, 9 block_on_stack_cb, 10 uncond_wait_cb
 CbEnter(w, kind, align) ==
   /\ cb[w].k = "none" /\ got[w] = 0
   /\ \E t \in D : Runs(w, t) /\
@@ -297,26 +353,30 @@ CbEnter(w, kind, align) ==
      \/ /\ kind = 6 /\ pc.k = "yd1"
         /\ cb' = [cb EXCEPT ![w] = Cb("yield", t, pc.z, 0, 0)]
         /\ th' = [th EXCEPT ![t].saved = TRUE, ![t].pc = P("yd9", 0, 0, 0)]
+     \/ /\ kind \in {8, 9, 10} /\ pc.k = "blk1" /\ pc.v = kind     \* block on sleep queue / sleep stack / uncond
+        /\ cb' = [cb EXCEPT ![w] = [Cb("block", t, pc.z, pc.x, 0) EXCEPT !.m = pc.y, !.kd = kind]]
+        /\ th' = [th EXCEPT ![t].saved = TRUE, ![t].pc = Head(th[t].rs), ![t].rs = Tail(@)]
   /\ bad' = IF align # 0 THEN Fail("C03: callback entered with misaligned stack") ELSE bad
-  /\ UNCHANGED <<cur, got, runq, lk, stk, freeD, freeS, flS, nD, nS, nL, anw, tg>>
+  /\ UNCHANGED <<cur, got, runq, lk, stk, freeD, freeS, flS, nD, nS, nL, anw, tg, sv>>
 
 \* the callback returns and the worker jumps into the next context
 CbExit(w) ==
   /\ \/ cb[w].k = "fin" /\ cb[w].s \in {5, 6}
      \/ cb[w].k = "join" /\ cb[w].s = 2
      \/ cb[w].k = "yield" /\ cb[w].s = 1
+     \/ cb[w].k = "block" /\ cb[w].s = 1 /\ (cb[w].p.k \in {"none", "mu9"})
   /\ LET n == cb[w].n IN
      /\ n # 0 => th[n].saved /\ th[n].st = "ready"
      /\ cur' = [cur EXCEPT ![w] = n]
      /\ th' = IF n # 0 THEN [th EXCEPT ![n].saved = FALSE] ELSE th
   /\ cb' = [cb EXCEPT ![w] = NoCb]
-  /\ UNCHANGED <<got, runq, lk, stk, freeD, freeS, flS, nD, nS, nL, anw, tg, bad>>
+  /\ UNCHANGED <<got, runq, lk, stk, freeD, freeS, flS, nD, nS, nL, anw, tg, bad, sv>>
 
 \* ------------------------------------------------------- thread start / end
 ThreadEntry(w, align) ==      \* first instruction of a parent-first thread
   /\ \E t \in D : At(w, t, "entry") /\ th' = SetPc(t, P("start", 0, 0, 0))
   /\ bad' = IF align # 0 THEN Fail("C03: thread entered with misaligned stack") ELSE bad
-  /\ UNCHANGED <<cur, got, cb, runq, lk, stk, freeD, freeS, flS, nD, nS, nL, anw, tg>>
+  /\ UNCHANGED <<cur, got, cb, runq, lk, stk, freeD, freeS, flS, nD, nS, nL, anw, tg, sv>>
 
 UBodyStart(w, tag, tok) ==
   /\ \E t \in D : At(w, t, "start") /\ th[t].tag = tag /\ th' = SetPc(t, User)
@@ -324,7 +384,7 @@ UBodyStart(w, tag, tok) ==
   /\ bad' = IF tg[tag].ran # 0 THEN Fail("C01: start function invoked twice")
             ELSE IF tag # 0 /\ tok # 7700 + tag THEN Fail("C01: start function got a wrong argument")
             ELSE bad
-  /\ UNCHANGED <<cur, got, cb, runq, lk, stk, freeD, freeS, flS, nD, nS, nL, anw>>
+  /\ UNCHANGED <<cur, got, cb, runq, lk, stk, freeD, freeS, flS, nD, nS, nL, anw, sv>>
 
 \* the start function returns v (kind 0) or calls the exit routine with v (kind 1)
 UBodyEnd(w, tag, v, kind) ==
@@ -332,7 +392,7 @@ UBodyEnd(w, tag, v, kind) ==
   /\ \E t \in D : At(w, t, "user") /\ th[t].tag = tag
         /\ th' = [th EXCEPT ![t].pc = P("fin0", v, 0, 0), ![t].res = v]
   /\ tg' = [tg EXCEPT ![tag].endv = v, ![tag].ended = TRUE, ![tag].cell = 5000 + tag]
-  /\ UNCHANGED <<cur, got, cb, runq, lk, stk, freeD, freeS, flS, nD, nS, nL, anw, bad>>
+  /\ UNCHANGED <<cur, got, cb, runq, lk, stk, freeD, freeS, flS, nD, nS, nL, anw, bad, sv>>
 
 \* finisher, under its own record lock, looks for a registered joiner
 FinWaiter(w, t, j) ==
@@ -341,7 +401,7 @@ FinWaiter(w, t, j) ==
      THEN /\ th[j].st = "blocked"
           /\ th' = [th EXCEPT ![j].st = "ready", ![t].pc = [@ EXCEPT !.k = "fin3", !.z = j]]
      ELSE th' = SetPc(t, [th[t].pc EXCEPT !.k = "fin2"])
-  /\ UNCHANGED <<cur, got, cb, runq, lk, stk, freeD, freeS, flS, nD, nS, nL, anw, tg, bad>>
+  /\ UNCHANGED <<cur, got, cb, runq, lk, stk, freeD, freeS, flS, nD, nS, nL, anw, tg, bad, sv>>
 
 \* (in the callback, i.e. on the next context's stack) the finished thread's stack is released
 StackFree(w, rank, s, kind, idx) ==
@@ -351,20 +411,20 @@ StackFree(w, rank, s, kind, idx) ==
   /\ IF kind = 0 THEN freeS' = [freeS EXCEPT ![w] = <<s>> \o @] /\ flS' = flS
                  ELSE flS' = [flS EXCEPT ![w][idx] = <<s>> \o @] /\ freeS' = freeS
   /\ cb' = [cb EXCEPT ![w].s = 1]
-  /\ UNCHANGED <<cur, got, runq, th, lk, freeD, nD, nS, nL, anw, tg, bad>>
+  /\ UNCHANGED <<cur, got, runq, th, lk, freeD, nD, nS, nL, anw, tg, bad, sv>>
 
 FinDet(w, t, det) ==
   /\ cb[w].k = "fin" /\ cb[w].t = t /\ cb[w].s = 1 /\ lk[th[t].lk] = w
   /\ det = Flag(th[t].det)
   /\ cb' = [cb EXCEPT ![w].s = 2]
-  /\ UNCHANGED <<cur, got, runq, th, lk, stk, freeD, freeS, flS, nD, nS, nL, anw, tg, bad>>
+  /\ UNCHANGED <<cur, got, runq, th, lk, stk, freeD, freeS, flS, nD, nS, nL, anw, tg, bad, sv>>
 
 \* the result becomes visible to joiners (status FREE_READY2), still under the lock
 Publish(w, t) ==
   /\ cb[w].k = "fin" /\ cb[w].t = t /\ cb[w].s = 2 /\ ~th[t].det /\ lk[th[t].lk] = w
   /\ th' = [th EXCEPT ![t].fin = TRUE, ![t].st = "fin"]
   /\ cb' = [cb EXCEPT ![w].s = 3]
-  /\ UNCHANGED <<cur, got, runq, lk, stk, freeD, freeS, flS, nD, nS, nL, anw, tg, bad>>
+  /\ UNCHANGED <<cur, got, runq, lk, stk, freeD, freeS, flS, nD, nS, nL, anw, tg, bad, sv>>
 
 \* a record goes back to the executing worker's free list:
 \*  (a) finisher of a detached thread, (b) joiner after reading the result, (c) detach of a finished thread
@@ -382,7 +442,7 @@ DescFree(w, rank, d) ==
            /\ tg' = [tg EXCEPT ![th[d].tag].reaped = @ + 1]
   /\ freeD' = [freeD EXCEPT ![w] = <<d>> \o @]
   /\ bad' = IF tg[th[d].tag].reaped # 0 THEN Fail("C13: thread reaped twice") ELSE bad
-  /\ UNCHANGED <<cur, got, runq, lk, stk, freeS, flS, nD, nS, nL, anw>>
+  /\ UNCHANGED <<cur, got, runq, lk, stk, freeS, flS, nD, nS, nL, anw, sv>>
 
 \* -------------------------------------------------------------------- join
 UJoinCall(w, tag, ctag) ==
@@ -390,18 +450,18 @@ UJoinCall(w, tag, ctag) ==
         /\ tg[ctag].hs = "live" /\ tg[ctag].d # 0
         /\ th' = SetPc(t, P("jn0", tg[ctag].d, ctag, 0))
   /\ tg' = [tg EXCEPT ![ctag].hs = "joining"]
-  /\ UNCHANGED <<cur, got, cb, runq, lk, stk, freeD, freeS, flS, nD, nS, nL, anw, bad>>
+  /\ UNCHANGED <<cur, got, cb, runq, lk, stk, freeD, freeS, flS, nD, nS, nL, anw, bad, sv>>
 
 JoinChk(w, j, t, fin) ==
   /\ At(w, j, "jn1") /\ th[j].pc.x = t /\ lk[th[t].lk] = w
   /\ fin = Flag(th[t].fin)
   /\ th' = SetPc(j, [th[j].pc EXCEPT !.k = IF fin = 1 THEN "jn2f" ELSE "jn2b"])
-  /\ UNCHANGED <<cur, got, cb, runq, lk, stk, freeD, freeS, flS, nD, nS, nL, anw, tg, bad>>
+  /\ UNCHANGED <<cur, got, cb, runq, lk, stk, freeD, freeS, flS, nD, nS, nL, anw, tg, bad, sv>>
 
 SetBlocked(w, j) ==
   /\ At(w, j, "jn2b")
   /\ th' = [th EXCEPT ![j].st = "blocked", ![j].pc = [@ EXCEPT !.k = "jn2c"]]
-  /\ UNCHANGED <<cur, got, cb, runq, lk, stk, freeD, freeS, flS, nD, nS, nL, anw, tg, bad>>
+  /\ UNCHANGED <<cur, got, cb, runq, lk, stk, freeD, freeS, flS, nD, nS, nL, anw, tg, bad, sv>>
 
 \* in the join callback: the joiner (context already saved) registers itself with the target
 JoinSet(w, t, j) ==
@@ -409,7 +469,7 @@ JoinSet(w, t, j) ==
   /\ th[j].saved /\ lk[th[t].lk] = w /\ th[t].jt = 0 /\ ~th[t].fin
   /\ th' = [th EXCEPT ![t].jt = j]
   /\ cb' = [cb EXCEPT ![w].s = 1]
-  /\ UNCHANGED <<cur, got, runq, lk, stk, freeD, freeS, flS, nD, nS, nL, anw, tg, bad>>
+  /\ UNCHANGED <<cur, got, runq, lk, stk, freeD, freeS, flS, nD, nS, nL, anw, tg, bad, sv>>
 
 \* the joiner reads the result; only after the target has published it
 JoinReap(w, t, v) ==
@@ -418,7 +478,7 @@ JoinReap(w, t, v) ==
         /\ th' = SetPc(j, [th[j].pc EXCEPT !.k = "jn4", !.z = v])
   /\ bad' = IF ~tg[th[t].tag].ended THEN Fail("C01: join read a result before the function ended")
             ELSE IF v # tg[th[t].tag].endv THEN Fail("C01: join read a wrong result") ELSE bad
-  /\ UNCHANGED <<cur, got, cb, runq, lk, stk, freeD, freeS, flS, nD, nS, nL, anw, tg>>
+  /\ UNCHANGED <<cur, got, cb, runq, lk, stk, freeD, freeS, flS, nD, nS, nL, anw, tg, sv>>
 
 UJoinRet(w, tag, ctag, v, cell) ==
   /\ \E t \in D : At(w, t, "jn5") /\ th[t].tag = tag /\ th[t].pc.y = ctag /\ th[t].pc.z = v
@@ -428,20 +488,20 @@ UJoinRet(w, tag, ctag, v, cell) ==
             ELSE IF v # tg[ctag].endv THEN Fail("C01: join returned a wrong value")
             ELSE IF cell # tg[ctag].cell THEN Fail("C01: a write of the joined thread is not visible to the joiner")
             ELSE bad
-  /\ UNCHANGED <<cur, got, cb, runq, lk, stk, freeD, freeS, flS, nD, nS, nL, anw>>
+  /\ UNCHANGED <<cur, got, cb, runq, lk, stk, freeD, freeS, flS, nD, nS, nL, anw, sv>>
 
 \* ----------------------------------------------------------------- tryjoin
 UTryJoinCall(w, tag, ctag) ==
   /\ \E t \in D : At(w, t, "user") /\ th[t].tag = tag
         /\ tg[ctag].hs = "live" /\ tg[ctag].d # 0
         /\ th' = SetPc(t, P("tj0", tg[ctag].d, ctag, 0))
-  /\ UNCHANGED <<cur, got, cb, runq, lk, stk, freeD, freeS, flS, nD, nS, nL, anw, tg, bad>>
+  /\ UNCHANGED <<cur, got, cb, runq, lk, stk, freeD, freeS, flS, nD, nS, nL, anw, tg, bad, sv>>
 
 TryJoinChk(w, j, t, fin) ==
   /\ At(w, j, "tj1") /\ th[j].pc.x = t /\ lk[th[t].lk] = w
   /\ fin = Flag(th[t].fin)
   /\ th' = SetPc(j, [th[j].pc EXCEPT !.k = "tj2", !.z = fin])
-  /\ UNCHANGED <<cur, got, cb, runq, lk, stk, freeD, freeS, flS, nD, nS, nL, anw, tg, bad>>
+  /\ UNCHANGED <<cur, got, cb, runq, lk, stk, freeD, freeS, flS, nD, nS, nL, anw, tg, bad, sv>>
 
 UTryJoinRet(w, tag, ctag, rc, v, cell) ==
   /\ \E t \in D : Runs(w, t) /\ th[t].tag = tag /\ th[t].pc.y = ctag
@@ -452,7 +512,7 @@ UTryJoinRet(w, tag, ctag, rc, v, cell) ==
                         ELSE IF cell # tg[ctag].cell THEN Fail("C01: a write of the joined thread is not visible to the joiner")
                         ELSE bad
         /\ th' = SetPc(t, User)
-  /\ UNCHANGED <<cur, got, cb, runq, lk, stk, freeD, freeS, flS, nD, nS, nL, anw>>
+  /\ UNCHANGED <<cur, got, cb, runq, lk, stk, freeD, freeS, flS, nD, nS, nL, anw, sv>>
 
 \* ------------------------------------------------------------------ detach
 UDetachCall(w, tag, ctag) ==
@@ -460,65 +520,437 @@ UDetachCall(w, tag, ctag) ==
         /\ tg[ctag].hs = "live" /\ tg[ctag].d # 0
         /\ th' = SetPc(t, P("dt0", tg[ctag].d, ctag, 0))
   /\ tg' = [tg EXCEPT ![ctag].hs = "detached"]
-  /\ UNCHANGED <<cur, got, cb, runq, lk, stk, freeD, freeS, flS, nD, nS, nL, anw, bad>>
+  /\ UNCHANGED <<cur, got, cb, runq, lk, stk, freeD, freeS, flS, nD, nS, nL, anw, bad, sv>>
 
 \* unlocked look at the status: already published => just free the record
 DetachQuick(w, t, f) ==
   /\ \E me \in D : At(w, me, "dt0") /\ th[me].pc.x = t
         /\ f = Flag(th[t].fin)
         /\ th' = SetPc(me, [th[me].pc EXCEPT !.k = IF f = 1 THEN "dt5" ELSE "dt1"])
-  /\ UNCHANGED <<cur, got, cb, runq, lk, stk, freeD, freeS, flS, nD, nS, nL, anw, tg, bad>>
+  /\ UNCHANGED <<cur, got, cb, runq, lk, stk, freeD, freeS, flS, nD, nS, nL, anw, tg, bad, sv>>
 
 DetachChk(w, t, fin) ==
   /\ \E me \in D : At(w, me, "dt2") /\ th[me].pc.x = t /\ lk[th[t].lk] = w
         /\ fin = Flag(th[t].fin)
         /\ th' = SetPc(me, [th[me].pc EXCEPT !.k = IF fin = 1 THEN "dt3" ELSE "dt3n"])
-  /\ UNCHANGED <<cur, got, cb, runq, lk, stk, freeD, freeS, flS, nD, nS, nL, anw, tg, bad>>
+  /\ UNCHANGED <<cur, got, cb, runq, lk, stk, freeD, freeS, flS, nD, nS, nL, anw, tg, bad, sv>>
 
 SetDetached(w, t) ==
   /\ \E me \in D : At(w, me, "dt3n") /\ th[me].pc.x = t /\ lk[th[t].lk] = w
         /\ th' = [th EXCEPT ![t].det = TRUE, ![me].pc = [@ EXCEPT !.k = "dt4"]]
-  /\ UNCHANGED <<cur, got, cb, runq, lk, stk, freeD, freeS, flS, nD, nS, nL, anw, tg, bad>>
+  /\ UNCHANGED <<cur, got, cb, runq, lk, stk, freeD, freeS, flS, nD, nS, nL, anw, tg, bad, sv>>
 
 UDetachRet(w, tag, ctag) ==
   /\ \E t \in D : At(w, t, "dt9") /\ th[t].tag = tag /\ th[t].pc.y = ctag /\ th' = SetPc(t, User)
-  /\ UNCHANGED <<cur, got, cb, runq, lk, stk, freeD, freeS, flS, nD, nS, nL, anw, tg, bad>>
+  /\ UNCHANGED <<cur, got, cb, runq, lk, stk, freeD, freeS, flS, nD, nS, nL, anw, tg, bad, sv>>
 
 \* ------------------------------------------------------------------- yield
 \* opt: 0 half_half, 1 local_only, 2 local_first, 3 steal_only, 4 steal_first
 UYieldCall(w, tag, opt) ==
   /\ opt \in 0..4
-  /\ \E t \in D : At(w, t, "user") /\ th[t].tag = tag /\ th' = SetPc(t, P("yd0", opt, 0, 0))
-  /\ UNCHANGED <<cur, got, cb, runq, lk, stk, freeD, freeS, flS, nD, nS, nL, anw, tg, bad>>
+  /\ \E t \in D : At(w, t, "user") /\ th[t].tag = tag /\ th' = SetPc(t, P("yu0", opt, 0, 0))
+  /\ UNCHANGED <<cur, got, cb, runq, lk, stk, freeD, freeS, flS, nD, nS, nL, anw, tg, bad, sv>>
 
-\* returns either after having been switched out and resumed (yd9) or immediately when no
-\* other thread was found by the attempts the option prescribes (yd0, y = attempts made)
+\* entry of the yield routine: called by the user (yu0) or internally by once (onw1, option
+\* half_half), nanosleep (ns2, half_half), timedlock / timedjoin (tl3 / tj3, local_first)
+YieldCallers == {"yu0", "onw1", "ns2", "tl3", "tj3"}
+YieldOptOf(pc) == CASE pc.k = "yu0" -> pc.x [] pc.k \in {"onw1", "ns2"} -> 0 [] OTHER -> 2
+YieldCont(pc) == CASE pc.k = "yu0" -> P("yu9", 0, 0, 0)
+                   [] pc.k = "onw1" -> [pc EXCEPT !.k = "onw"]
+                   [] pc.k = "ns2" -> [pc EXCEPT !.k = "ns1"]
+                   [] pc.k = "tl3" -> [pc EXCEPT !.k = "tl1"]
+                   [] OTHER -> [pc EXCEPT !.k = "tj1"]
+YieldBeg(w, t, opt) ==
+  /\ Runs(w, t) /\ th[t].pc.k \in YieldCallers /\ opt = YieldOptOf(th[t].pc)
+  /\ th' = CallPc(t, P("yd0", opt, 0, 0), YieldCont(th[t].pc))
+  /\ UNCHANGED <<cur, got, cb, runq, lk, stk, freeD, freeS, flS, nD, nS, nL, anw, tg, bad, sv>>
+
+\* the routine returns either after having been switched out and resumed (yd9) or immediately
+\* when the attempts prescribed by the option found no other thread (yd0, y = attempts made)
 YieldExhausted(opt, y) ==
   CASE opt = 1 -> PopDone(y)
     [] opt = 3 -> StealDone(y)
     [] OTHER -> PopDone(y) /\ StealDone(y)
+YieldEnd(w, t) ==
+  /\ Runs(w, t)
+  /\ \/ th[t].pc.k = "yd9"
+     \/ th[t].pc.k = "yd0" /\ YieldExhausted(th[t].pc.x, th[t].pc.y)
+  /\ th' = RetPc(t)
+  /\ UNCHANGED <<cur, got, cb, runq, lk, stk, freeD, freeS, flS, nD, nS, nL, anw, tg, bad, sv>>
+
 UYieldRet(w, tag) ==
-  /\ \E t \in D : Runs(w, t) /\ th[t].tag = tag
-        /\ \/ th[t].pc.k = "yd9"
-           \/ th[t].pc.k = "yd0" /\ YieldExhausted(th[t].pc.x, th[t].pc.y)
-        /\ th' = SetPc(t, User)
-  /\ UNCHANGED <<cur, got, cb, runq, lk, stk, freeD, freeS, flS, nD, nS, nL, anw, tg, bad>>
+  /\ \E t \in D : At(w, t, "yu9") /\ th[t].tag = tag /\ th' = SetPc(t, User)
+  /\ UNCHANGED <<cur, got, cb, runq, lk, stk, freeD, freeS, flS, nD, nS, nL, anw, tg, bad, sv>>
 
 UMainEnd(w) ==
   /\ \E t \in D : At(w, t, "user") /\ th[t].tag = 0 /\ th' = SetPc(t, P("done", 0, 0, 0))
-  /\ UNCHANGED <<cur, got, cb, runq, lk, stk, freeD, freeS, flS, nD, nS, nL, anw, tg, bad>>
+  /\ UNCHANGED <<cur, got, cb, runq, lk, stk, freeD, freeS, flS, nD, nS, nL, anw, tg, bad, sv>>
+
+\* ===================================================== synchronisation primitives
+ledger == <<lk, stk, freeD, freeS, flS, nD, nS, nL, anw>>
+Pow2(n) == 2 ^ n
+ObSet(f, o, v) == [ob EXCEPT ![f][o] = v]
+GhSet(f, o, v) == [gh EXCEPT ![f][o] = v]
+\* the object o (of kind f) always uses the same sleep queue q
+QOk(f, o, q) == q # 0 /\ gh[f][o] \in {0, q}
+ThreadOf(w) == cur[w]
+
+\* --------------------------------------------------------------- blocking
+\* the running thread is about to give up the worker: it names the sleep queue / stack q
+\* (0 for an uncond slot) and, for cond_wait, the mutex m to release after it is enqueued
+\* (for uncond: m = -u).  The next context is popped, then the callback runs.
+BlockCallers == {"ml2", "cw1", "br4", "jw2", "uw0"}
+Block(w, t, q, m) ==
+  /\ Runs(w, t) /\ th[t].pc.k \in BlockCallers
+  /\ LET pc == th[t].pc IN
+     \/ /\ pc.k = "ml2" /\ m = 0 /\ QOk("qmx", pc.x, q)  \* mutex lock: retry the lock when woken
+        /\ th' = [th EXCEPT ![t].pc = P5("blk0", q, 0, 0, 8), ![t].rs = <<P("ml0", pc.x, 0, 0)>> \o @]
+        /\ gh' = GhSet("qmx", pc.x, q)
+     \/ /\ pc.k = "cw1" /\ m = pc.y /\ q = pc.z     \* cond wait: release m in the callback, re-lock when woken
+        /\ th' = [th EXCEPT ![t].pc = P5("blk0", q, m, 0, 8), ![t].rs = <<P("ml0", m, 0, 0), P("cw9", pc.x, m, 0)>> \o @]
+        /\ gh' = gh
+     \/ /\ pc.k = "br4" /\ m = 0 /\ QOk("qbr", pc.x, q)  \* barrier: sleep stack
+        /\ th' = [th EXCEPT ![t].pc = P5("blk0", q, 0, 0, 9), ![t].rs = <<P("br9", pc.x, 0, 0)>> \o @]
+        /\ gh' = GhSet("qbr", pc.x, q)
+     \/ /\ pc.k = "jw2" /\ m = 0 /\ QOk("qjc", pc.x, q)  \* join counter: re-check when woken
+        /\ th' = [th EXCEPT ![t].pc = P5("blk0", q, 0, 0, 8), ![t].rs = <<P("jw0", pc.x, 0, 0)>> \o @]
+        /\ gh' = GhSet("qjc", pc.x, q)
+     \/ /\ pc.k = "uw0" /\ q = 0 /\ m = -pc.x       \* uncond wait
+        /\ th' = [th EXCEPT ![t].pc = P5("blk0", pc.x, 0, 0, 10), ![t].rs = <<P("uw9", pc.x, 0, 0)>> \o @]
+        /\ gh' = gh
+  /\ UNCHANGED <<cur, got, cb, runq, ledger, tg, bad, mx, sq, ob>>
+
+\* in the callback: the (saved) thread enters the sleep queue ...
+SqEnq(w, q, d) ==
+  /\ cb[w].k = "block" /\ cb[w].kd = 8 /\ cb[w].s = 0 /\ cb[w].t = d /\ cb[w].x = q /\ th[d].saved
+  /\ sq' = [sq EXCEPT ![q] = Append(@, d)]
+  /\ cb' = [cb EXCEPT ![w].s = 1, ![w].p = IF cb[w].m # 0 THEN P("mu0", cb[w].m, 0, 0) ELSE NoP]
+  /\ UNCHANGED <<cur, got, runq, th, ledger, tg, bad, mx, ob, gh>>
+\* ... or the sleep stack
+StPush(w, q, d) ==
+  /\ cb[w].k = "block" /\ cb[w].kd = 9 /\ cb[w].s = 0 /\ cb[w].t = d /\ cb[w].x = q /\ th[d].saved /\ cb[w].m = 0
+  /\ sq' = [sq EXCEPT ![q] = <<d>> \o @]
+  /\ cb' = [cb EXCEPT ![w].s = 1]
+  /\ UNCHANGED <<cur, got, runq, th, ledger, tg, bad, mx, ob, gh>>
+
+\* dequeue by a waker; what it means depends on the wake-up protocol in progress
+SqDeq(w, q, d) ==
+  /\ Agent(w)
+  /\ d = (IF sq[q] = <<>> THEN 0 ELSE Head(sq[q]))
+  /\ sq' = [sq EXCEPT ![q] = IF @ = <<>> THEN @ ELSE Tail(@)]
+  /\ LET pc == APc(w) IN
+     \/ /\ pc.k = "wo0" /\ pc.x = q                         \* wake exactly one (mutex unlock): spin while empty
+        /\ IF d = 0 THEN UNCHANGED <<th, cb>> ELSE AgentSet(w, [pc EXCEPT !.k = "wo1", !.z = d])
+     \/ /\ pc.k = "cs1" /\ pc.x = q /\ ~InCb(w)             \* wake if any / wake all (cond signal / broadcast)
+        /\ IF d = 0 THEN th' = RetPc(cur[w]) ELSE th' = SetPc(cur[w], [pc EXCEPT !.k = "cs2", !.z = d])
+        /\ cb' = cb
+     \/ /\ pc.k = "wm0" /\ pc.x = q /\ pc.v = 0 /\ ~InCb(w) /\ pc.y > 0    \* wake exactly n (join counter): spin while empty
+        /\ IF d = 0 THEN th' = th
+           ELSE th' = [th EXCEPT ![cur[w]].wl = Append(@, d),
+                                 ![cur[w]].pc = [pc EXCEPT !.k = IF pc.y = 1 THEN "wm1" ELSE "wm0", !.y = pc.y - 1]]
+        /\ cb' = cb
+  /\ UNCHANGED <<cur, got, runq, ledger, tg, bad, mx, ob, gh>>
+
+StPop(w, q, d) ==
+  /\ Agent(w) /\ ~InCb(w)
+  /\ d = (IF sq[q] = <<>> THEN 0 ELSE Head(sq[q]))
+  /\ sq' = [sq EXCEPT ![q] = IF @ = <<>> THEN @ ELSE Tail(@)]
+  /\ LET pc == APc(w) IN
+     /\ pc.k = "wm0" /\ pc.x = q /\ pc.v = 1 /\ pc.y > 0    \* wake exactly n (barrier)
+     /\ IF d = 0 THEN th' = th
+        ELSE th' = [th EXCEPT ![cur[w]].wl = Append(@, d),
+                              ![cur[w]].pc = [pc EXCEPT !.k = IF pc.y = 1 THEN "wm1" ELSE "wm0", !.y = pc.y - 1]]
+  /\ UNCHANGED <<cur, got, cb, runq, ledger, tg, bad, mx, ob, gh>>
+
+\* ------------------------------------------------------------------ mutex
+\* kind: 0 lock, 1 trylock, 2 unlock
+MxLd(w, m, s, kind) ==
+  /\ Agent(w) /\ s = mx[m]
+  /\ LET pc == APc(w) IN
+     /\ pc.x = m
+     /\ \/ kind = 0 /\ pc.k = "ml0" /\ AgentSet(w, [pc EXCEPT !.k = "ml1", !.y = s])
+        \/ kind = 1 /\ pc.k = "mt0" /\ AgentSet(w, [pc EXCEPT !.k = "mt1", !.y = s])
+        \/ kind = 2 /\ pc.k = "mu0" /\ s % 2 = 1 /\ AgentSet(w, [pc EXCEPT !.k = "mu1", !.y = s])
+  /\ UNCHANGED <<cur, got, runq, ledger, tg, bad, sv>>
+
+\* compare-and-swap on the state word: succeeds iff the word still has the value read
+MxCas(w, m, exp, new, ok) ==
+  /\ Agent(w) /\ ok = Flag(mx[m] = exp)
+  /\ mx' = IF ok = 1 THEN [mx EXCEPT ![m] = new] ELSE mx
+  /\ LET pc == APc(w) IN
+     /\ pc.x = m /\ pc.y = exp
+     /\ \/ /\ pc.k = "ml1" /\ exp % 2 = 0 /\ new = exp + 1 /\ ~InCb(w)        \* lock bit clear: take it
+           /\ IF ok = 1 THEN th' = RetPc(cur[w]) ELSE th' = SetPc(cur[w], [pc EXCEPT !.k = "ml0"])
+           /\ cb' = cb
+        \/ /\ pc.k = "ml1" /\ exp % 2 = 1 /\ new = exp + 2 /\ ~InCb(w)        \* held: reserve a seat in the queue
+           /\ th' = SetPc(cur[w], [pc EXCEPT !.k = IF ok = 1 THEN "ml2" ELSE "ml0"])
+           /\ cb' = cb
+        \/ /\ pc.k = "mt1" /\ exp % 2 = 0 /\ new = exp + 1 /\ ~InCb(w)        \* trylock
+           /\ th' = SetPc(cur[w], [pc EXCEPT !.k = IF ok = 1 THEN "mt9" ELSE "mt0"])
+           /\ cb' = cb
+        \/ /\ pc.k = "mu1" /\ exp > 1 /\ new = exp - 2                         \* unlock, somebody (will be) queued
+           /\ AgentSet(w, [pc EXCEPT !.k = IF ok = 1 THEN "mu2" ELSE "mu0"])
+        \/ /\ pc.k = "mu1" /\ exp = 1 /\ new = 0                               \* unlock, nobody waiting
+           /\ IF ok = 1 THEN AgentRet(w) ELSE AgentSet(w, [pc EXCEPT !.k = "mu0"])
+  /\ UNCHANGED <<cur, got, runq, ledger, tg, bad, sq, ob, gh>>
+
+\* the unlocker starts waking exactly one thread from the mutex's sleep queue
+MxWake(w, m, q) ==
+  /\ Agent(w) /\ APc(w).k = "mu2" /\ APc(w).x = m /\ QOk("qmx", m, q)
+  /\ AgentSet(w, P("wo0", q, m, 0))
+  /\ gh' = GhSet("qmx", m, q)
+  /\ UNCHANGED <<cur, got, runq, ledger, tg, bad, mx, sq, ob>>
+
+\* after dequeuing the thread to wake and before making it runnable: clear the lock bit
+MxClr(w, m) ==
+  /\ Agent(w) /\ APc(w).k = "wo1" /\ APc(w).y = m /\ mx[m] % 2 = 1
+  /\ mx' = [mx EXCEPT ![m] = @ - 1]
+  /\ AgentSet(w, [APc(w) EXCEPT !.k = "wo2"])
+  /\ UNCHANGED <<cur, got, runq, ledger, tg, bad, sq, ob, gh>>
+
+ULockCall(w, tag, m) ==
+  /\ \E t \in D : At(w, t, "user") /\ th[t].tag = tag
+        /\ th' = CallPc(t, P("ml0", m, 0, 0), P("ml9", m, 0, 0))
+  /\ UNCHANGED <<cur, got, cb, runq, ledger, tg, bad, sv>>
+\* C04: mutual exclusion at the level of the API
+ULockRet(w, tag, m) ==
+  /\ \E t \in D : At(w, t, "ml9") /\ th[t].tag = tag /\ th[t].pc.x = m
+        /\ th' = SetPc(t, User)
+        /\ gh' = GhSet("mown", m, t)
+  /\ bad' = IF gh.mown[m] # 0 THEN Fail("C04: mutex acquired while another thread holds it") ELSE bad
+  /\ UNCHANGED <<cur, got, cb, runq, ledger, tg, mx, sq, ob>>
+UTryLockCall(w, tag, m) ==
+  /\ \E t \in D : At(w, t, "user") /\ th[t].tag = tag /\ th' = SetPc(t, P("mt0", m, 0, 0))
+  /\ UNCHANGED <<cur, got, cb, runq, ledger, tg, bad, sv>>
+\* trylock never blocks: it returns busy only from a state in which it saw the lock bit set
+UTryLockRet(w, tag, m, rc) ==
+  /\ \E t \in D : Runs(w, t) /\ th[t].tag = tag /\ th[t].pc.x = m
+        /\ \/ th[t].pc.k = "mt9" /\ rc = 0
+           \/ th[t].pc.k = "mt1" /\ th[t].pc.y % 2 = 1 /\ rc # 0
+        /\ th' = SetPc(t, User)
+        /\ gh' = (IF rc = 0 THEN GhSet("mown", m, t) ELSE gh)
+  /\ bad' = IF rc = 0 /\ gh.mown[m] # 0 THEN Fail("C04: mutex acquired (trylock) while another thread holds it") ELSE bad
+  /\ UNCHANGED <<cur, got, cb, runq, ledger, tg, mx, sq, ob>>
+UUnlockCall(w, tag, m) ==
+  /\ \E t \in D : At(w, t, "user") /\ th[t].tag = tag /\ gh.mown[m] = t
+        /\ th' = CallPc(t, P("mu0", m, 0, 0), P("mu9", m, 0, 0))
+  /\ gh' = GhSet("mown", m, 0)
+  /\ UNCHANGED <<cur, got, cb, runq, ledger, tg, bad, mx, sq, ob>>
+UUnlockRet(w, tag, m) ==
+  /\ \E t \in D : At(w, t, "mu9") /\ th[t].tag = tag /\ th[t].pc.x = m /\ th' = SetPc(t, User)
+  /\ UNCHANGED <<cur, got, cb, runq, ledger, tg, bad, sv>>
+
+\* ------------------------------------------------------ condition variable
+UCondWaitCall(w, tag, c, m) ==
+  /\ \E t \in D : At(w, t, "user") /\ th[t].tag = tag /\ gh.mown[m] = t
+        /\ th' = SetPc(t, P("cw0", c, m, 0))
+  /\ gh' = GhSet("mown", m, 0)
+  /\ UNCHANGED <<cur, got, cb, runq, ledger, tg, bad, mx, sq, ob>>
+CvWait(w, c, q, m) ==
+  /\ \E t \in D : At(w, t, "cw0") /\ th[t].pc.x = c /\ th[t].pc.y = m
+        /\ th' = SetPc(t, P("cw1", c, m, q))
+  /\ QOk("qcv", c, q) /\ gh' = GhSet("qcv", c, q)
+  /\ UNCHANGED <<cur, got, cb, runq, ledger, tg, bad, mx, sq, ob>>
+\* a woken waiter returns holding the mutex
+UCondWaitRet(w, tag, c, m) ==
+  /\ \E t \in D : At(w, t, "cw9") /\ th[t].tag = tag /\ th[t].pc.x = c /\ th[t].pc.y = m
+        /\ th' = SetPc(t, User)
+        /\ gh' = GhSet("mown", m, t)
+  /\ bad' = IF gh.mown[m] # 0 THEN Fail("C05: cond_wait returned while another thread holds the mutex") ELSE bad
+  /\ UNCHANGED <<cur, got, cb, runq, ledger, tg, mx, sq, ob>>
+UCondSignalCall(w, tag, c, bc) ==
+  /\ \E t \in D : At(w, t, "user") /\ th[t].tag = tag /\ th' = SetPc(t, P("cs0", c, bc, 0))
+  /\ UNCHANGED <<cur, got, cb, runq, ledger, tg, bad, sv>>
+CvSignal(w, c, q, bc) ==
+  /\ \E t \in D : At(w, t, "cs0") /\ th[t].pc.x = c /\ th[t].pc.y = bc
+        /\ th' = CallPc(t, P("cs1", q, bc, 0), P("cs9", c, bc, 0))
+  /\ QOk("qcv", c, q) /\ gh' = GhSet("qcv", c, q)
+  /\ UNCHANGED <<cur, got, cb, runq, ledger, tg, bad, mx, sq, ob>>
+UCondSignalRet(w, tag, c) ==
+  /\ \E t \in D : At(w, t, "cs9") /\ th[t].tag = tag /\ th[t].pc.x = c /\ th' = SetPc(t, User)
+  /\ UNCHANGED <<cur, got, cb, runq, ledger, tg, bad, sv>>
+
+\* ----------------------------------------------------------------- barrier
+UBarrierCall(w, tag, b) ==
+  /\ \E t \in D : At(w, t, "user") /\ th[t].tag = tag /\ th' = SetPc(t, P("br0", b, 0, 0))
+  /\ gh' = GhSet("bcall", b, gh.bcall[b] + 1)
+  /\ UNCHANGED <<cur, got, cb, runq, ledger, tg, bad, mx, sq, ob>>
+BrLd(w, b, c, n) ==
+  /\ \E t \in D : At(w, t, "br0") /\ th[t].pc.x = b /\ c = ob.br[b] /\ c < n
+        /\ th' = SetPc(t, P("br1", b, c, n))
+  /\ UNCHANGED <<cur, got, cb, runq, ledger, tg, bad, sv>>
+BrCas(w, b, c, ok) ==
+  /\ \E t \in D : At(w, t, "br1") /\ th[t].pc.x = b /\ th[t].pc.y = c
+        /\ ok = Flag(ob.br[b] = c)
+        /\ ob' = (IF ok = 1 THEN ObSet("br", b, c + 1) ELSE ob)
+        /\ th' = SetPc(t, [th[t].pc EXCEPT !.k = IF ok = 0 THEN "br0" ELSE IF c = th[t].pc.z - 1 THEN "br2" ELSE "br4"])
+  /\ UNCHANGED <<cur, got, cb, runq, ledger, tg, bad, mx, sq, gh>>
+\* the last arriver re-opens the barrier for the next round ...
+BrReset(w, b) ==
+  /\ \E t \in D : At(w, t, "br2") /\ th[t].pc.x = b /\ th' = SetPc(t, [th[t].pc EXCEPT !.k = "br3"])
+  /\ ob' = ObSet("br", b, 0)
+  /\ UNCHANGED <<cur, got, cb, runq, ledger, tg, bad, mx, sq, gh>>
+\* ... and collects exactly c sleepers from the stack before making any of them runnable
+BrWake(w, b, q, c) ==
+  /\ \E t \in D : At(w, t, "br3") /\ th[t].pc.x = b /\ c = th[t].pc.z - 1
+        /\ IF c = 0 THEN th' = SetPc(t, P("br9", b, 1, 0))
+           ELSE th' = CallPc(t, P5("wm0", q, c, 0, 1), P("br9", b, 1, 0))
+  /\ QOk("qbr", b, q) /\ gh' = GhSet("qbr", b, q)
+  /\ UNCHANGED <<cur, got, cb, runq, ledger, tg, bad, mx, sq, ob>>
+\* C06: nobody passes round k before all N arrived; one serial thread per round
+UBarrierRet(w, tag, b, rc, n) ==
+  /\ \E t \in D : At(w, t, "br9") /\ th[t].tag = tag /\ th[t].pc.x = b /\ rc = th[t].pc.y
+        /\ th' = SetPc(t, User)
+  /\ LET r == gh.bret[b] \div n
+         ser == gh.bser[b] + rc IN
+     /\ gh' = [gh EXCEPT !.bret[b] = @ + 1, !.bser[b] = ser]
+     /\ bad' = IF gh.bcall[b] < (r + 1) * n THEN Fail("C06: a participant passed the barrier before all arrived")
+               ELSE IF (gh.bret[b] + 1) % n = 0 /\ ser # r + 1 THEN Fail("C06: not exactly one serial thread in a round")
+               ELSE IF ser > r + 1 THEN Fail("C06: more than one serial thread in a round")
+               ELSE bad
+  /\ UNCHANGED <<cur, got, cb, runq, ledger, tg, mx, sq, ob>>
+
+\* ------------------------------------------------------------ join counter
+\* word = waiters * 2^bits + decrements;  bits = number of bits needed to represent n
+CalcBits(n) == CHOOSE b \in 0..31 : n < Pow2(b) /\ (b = 0 \/ n >= Pow2(b - 1))
+JcInit(w, j, n, b, mask) ==
+  /\ bad' = IF b # CalcBits(n) \/ mask # Pow2(b) - 1 \/ n > mask
+            THEN Fail("C07: join counter packing cannot represent n decrements") ELSE bad
+  /\ ob' = ObSet("jc", j, 0)
+  /\ gh' = GhSet("jdec", j, 0)
+  /\ UNCHANGED <<cur, got, cb, runq, th, ledger, tg, mx, sq>>
+UJcWaitCall(w, tag, j) ==
+  /\ \E t \in D : At(w, t, "user") /\ th[t].tag = tag /\ th' = SetPc(t, P("jw0", j, 0, 0))
+  /\ UNCHANGED <<cur, got, cb, runq, ledger, tg, bad, sv>>
+\* kind 0 = wait, 1 = dec
+JcLd(w, j, s, kind, n, bits) ==
+  /\ s = ob.jc[j]
+  /\ \E t \in D : Runs(w, t) /\ th[t].pc.x = j
+        /\ \/ /\ kind = 0 /\ th[t].pc.k = "jw0"
+              /\ th' = SetPc(t, IF s % Pow2(bits) = n THEN P("jw9", j, 0, 0) ELSE P5("jw1", j, s, n, bits))
+           \/ /\ kind = 1 /\ th[t].pc.k = "jd0" /\ s % Pow2(bits) < n
+              /\ th' = SetPc(t, P5("jd1", j, s, n, bits))
+  /\ UNCHANGED <<cur, got, cb, runq, ledger, tg, bad, sv>>
+JcCas(w, j, exp, new, ok) ==
+  /\ ok = Flag(ob.jc[j] = exp)
+  /\ ob' = IF ok = 1 THEN ObSet("jc", j, new) ELSE ob
+  /\ \E t \in D : Runs(w, t) /\ th[t].pc.x = j /\ th[t].pc.y = exp
+        /\ LET pc == th[t].pc IN
+           \/ /\ pc.k = "jw1" /\ new = exp + Pow2(pc.v)                 \* announce one more waiter
+              /\ th' = SetPc(t, IF ok = 1 THEN P("jw2", j, 0, 0) ELSE P("jw0", j, 0, 0))
+           \/ /\ pc.k = "jd1" /\ new = exp + 1                           \* one more decrement
+              /\ th' = SetPc(t, IF ok = 0 THEN P("jd0", j, 0, 0)
+                                ELSE IF exp % Pow2(pc.v) = pc.z - 1 THEN P5("jd2", j, exp \div Pow2(pc.v), 0, 0)
+                                ELSE P("jd9", j, 0, 0))
+  /\ UNCHANGED <<cur, got, cb, runq, ledger, tg, bad, mx, sq, gh>>
+\* the N-th decrement wakes exactly the waiters recorded in the word it replaced
+JcWake(w, j, q, k) ==
+  /\ \E t \in D : At(w, t, "jd2") /\ th[t].pc.x = j /\ k = th[t].pc.y
+        /\ IF k = 0 THEN th' = SetPc(t, P("jd9", j, 0, 0))
+           ELSE th' = CallPc(t, P5("wm0", q, k, 0, 0), P("jd9", j, 0, 0))
+  /\ QOk("qjc", j, q) /\ gh' = GhSet("qjc", j, q)
+  /\ UNCHANGED <<cur, got, cb, runq, ledger, tg, bad, mx, sq, ob>>
+\* C07: a wait returns only after all n decrements have been requested
+UJcWaitRet(w, tag, j, n) ==
+  /\ \E t \in D : At(w, t, "jw9") /\ th[t].tag = tag /\ th[t].pc.x = j /\ th' = SetPc(t, User)
+  /\ bad' = IF gh.jdec[j] < n THEN Fail("C07: join-counter wait returned before the n-th decrement") ELSE bad
+  /\ UNCHANGED <<cur, got, cb, runq, ledger, tg, sv>>
+UJcDecCall(w, tag, j) ==
+  /\ \E t \in D : At(w, t, "user") /\ th[t].tag = tag /\ th' = SetPc(t, P("jd0", j, 0, 0))
+  /\ gh' = GhSet("jdec", j, gh.jdec[j] + 1)
+  /\ UNCHANGED <<cur, got, cb, runq, ledger, tg, bad, mx, sq, ob>>
+UJcDecRet(w, tag, j) ==
+  /\ \E t \in D : At(w, t, "jd9") /\ th[t].tag = tag /\ th[t].pc.x = j /\ th' = SetPc(t, User)
+  /\ UNCHANGED <<cur, got, cb, runq, ledger, tg, bad, sv>>
+
+\* ------------------------------------------------------------------ uncond
+UUcWaitCall(w, tag, u) ==
+  /\ \E t \in D : At(w, t, "user") /\ th[t].tag = tag /\ th' = SetPc(t, P("uw0", u, 0, 0))
+  /\ UNCHANGED <<cur, got, cb, runq, ledger, tg, bad, sv>>
+\* in the callback (context saved): publish the waiter in the slot
+UcPub(w, u, d) ==
+  /\ cb[w].k = "block" /\ cb[w].kd = 10 /\ cb[w].s = 0 /\ cb[w].t = d /\ cb[w].x = u /\ th[d].saved /\ ob.uc[u] = 0
+  /\ ob' = ObSet("uc", u, d)
+  /\ cb' = [cb EXCEPT ![w].s = 1]
+  /\ UNCHANGED <<cur, got, runq, th, ledger, tg, bad, mx, sq, gh>>
+\* C08: the waiter resumes only after a signal, once per rendezvous
+UUcWaitRet(w, tag, u) ==
+  /\ \E t \in D : At(w, t, "uw9") /\ th[t].tag = tag /\ th[t].pc.x = u /\ th' = SetPc(t, User)
+  /\ gh' = GhSet("ucwake", u, gh.ucwake[u] + 1)
+  /\ bad' = IF gh.ucwake[u] + 1 > gh.ucsig[u] THEN Fail("C08: uncond waiter resumed without a signal") ELSE bad
+  /\ UNCHANGED <<cur, got, cb, runq, ledger, tg, mx, sq, ob>>
+UUcSignalCall(w, tag, u) ==
+  /\ \E t \in D : At(w, t, "user") /\ th[t].tag = tag /\ th' = CallPc(t, P("us0", u, 0, 0), P("us9", u, 0, 0))
+  /\ gh' = GhSet("ucsig", u, gh.ucsig[u] + 1)
+  /\ UNCHANGED <<cur, got, cb, runq, ledger, tg, bad, mx, sq, ob>>
+UcLd(w, u, d) ==
+  /\ d = ob.uc[u]
+  /\ \E t \in D : At(w, t, "us0") /\ th[t].pc.x = u
+        /\ th' = (IF d = 0 THEN th ELSE SetPc(t, P("us1", u, 0, d)))
+  /\ UNCHANGED <<cur, got, cb, runq, ledger, tg, bad, sv>>
+UcClr(w, u) ==
+  /\ \E t \in D : At(w, t, "us1") /\ th[t].pc.x = u /\ th' = SetPc(t, [th[t].pc EXCEPT !.k = "us2"])
+  /\ ob' = ObSet("uc", u, 0)
+  /\ UNCHANGED <<cur, got, cb, runq, ledger, tg, bad, mx, sq, gh>>
+\* signal returns only after the waiter has been handed back to the scheduler
+UUcSignalRet(w, tag, u) ==
+  /\ \E t \in D : At(w, t, "us9") /\ th[t].tag = tag /\ th[t].pc.x = u /\ th' = SetPc(t, User)
+  /\ UNCHANGED <<cur, got, cb, runq, ledger, tg, bad, sv>>
+
+\* -------------------------------------------------------------------- once
+UOnceCall(w, tag, o) ==
+  /\ \E t \in D : At(w, t, "user") /\ th[t].tag = tag /\ th' = SetPc(t, P("on0", o, 0, 0))
+  /\ UNCHANGED <<cur, got, cb, runq, ledger, tg, bad, sv>>
+OnLd(w, o, s) ==
+  /\ s = ob.on[o]
+  /\ \E t \in D : Runs(w, t) /\ th[t].pc.x = o
+        /\ \/ /\ th[t].pc.k = "on0" /\ th' = SetPc(t, P("on1", o, s, 0))
+           \/ /\ (th[t].pc.k = "onw" \/ (th[t].pc.k = "on1" /\ th[t].pc.y # 0))   \* waiting for the winner: yield and look again
+              /\ th' = SetPc(t, IF s = 2 THEN P("on9", o, 0, 0) ELSE P("onw1", o, 0, 0))
+  /\ UNCHANGED <<cur, got, cb, runq, ledger, tg, bad, sv>>
+OnCas(w, o, ok) ==
+  /\ \E t \in D : At(w, t, "on1") /\ th[t].pc.x = o /\ th[t].pc.y = 0
+        /\ ok = Flag(ob.on[o] = 0)
+        /\ th' = SetPc(t, IF ok = 1 THEN P("on2", o, 0, 0) ELSE P("onw", o, 0, 0))
+  /\ ob' = IF ok = 1 THEN ObSet("on", o, 1) ELSE ob
+  /\ UNCHANGED <<cur, got, cb, runq, ledger, tg, bad, mx, sq, gh>>
+\* the winner runs the init routine: ordinary user code that may call anything
+UOnceBody(w, o) ==
+  /\ \E t \in D : At(w, t, "on2") /\ th[t].pc.x = o
+        /\ th' = CallPc(t, User, P("on3", o, 0, 0))
+  /\ gh' = GhSet("onrun", o, gh.onrun[o] + 1)
+  /\ bad' = IF gh.onrun[o] # 0 THEN Fail("C14: init routine executed more than once") ELSE bad
+  /\ UNCHANGED <<cur, got, cb, runq, ledger, tg, mx, sq, ob>>
+UOnceBodyEnd(w, o) ==
+  /\ \E t \in D : At(w, t, "user") /\ th[t].rs # <<>> /\ Head(th[t].rs).k = "on3" /\ Head(th[t].rs).x = o
+        /\ th' = RetPc(t)
+  /\ gh' = GhSet("ondone", o, 1)
+  /\ UNCHANGED <<cur, got, cb, runq, ledger, tg, bad, mx, sq, ob>>
+OnDone(w, o) ==
+  /\ \E t \in D : At(w, t, "on3") /\ th[t].pc.x = o /\ th' = SetPc(t, P("on9", o, 0, 0))
+  /\ ob' = ObSet("on", o, 2)
+  /\ UNCHANGED <<cur, got, cb, runq, ledger, tg, bad, mx, sq, gh>>
+\* C14: nobody returns before the init routine has completed
+UOnceRet(w, tag, o) ==
+  /\ \E t \in D : At(w, t, "on9") /\ th[t].tag = tag /\ th[t].pc.x = o /\ th' = SetPc(t, User)
+  /\ bad' = IF gh.ondone[o] # 1 THEN Fail("C14: once returned before the init routine completed") ELSE bad
+  /\ UNCHANGED <<cur, got, cb, runq, ledger, tg, sv>>
 
 \* ============================================================== properties
 OK == bad = "ok"
 
 \* places that hold a thread which is runnable but not running
-HolderStages == {"fin3", "jn2d", "yd1", "blk1", "cr3", "cr3p"}
+HolderStages == {"fin3", "jn2d", "yd1", "blk1", "cr3", "cr3p", "wo1", "wo2", "cs2", "us2"}
 InTransit(d) == \E w \in W : cb[w].k # "none" /\ cb[w].t = d
 Places(d) ==
     Cardinality({<<w, i>> \in W \X (1..(MaxD + 1)) : i <= Len(runq[w]) /\ runq[w][i] = d})
   + Cardinality({w \in W : got[w] = d})
   + Cardinality({w \in W : cb[w].k # "none" /\ cb[w].n = d})
+  + Cardinality({w \in W : cb[w].k # "none" /\ cb[w].p.k \in HolderStages /\ cb[w].p.z = d})
   + Cardinality({t \in D : t # 0 /\ th[t].pc.k \in HolderStages /\ th[t].pc.z = d /\ \E w \in W : Runs(w, t)})
+  + Cardinality({t \in D : t # 0 /\ d \in SeqSet(th[t].wl)})
+  + Cardinality({<<q, i>> \in Q \X (1..(MaxD + 1)) : i <= Len(sq[q]) /\ sq[q][i] = d})
+  + Cardinality({u \in Obj : ob.uc[u] = d})
   + Cardinality({w \in W : cur[w] = d /\ cb[w].t # d})
 \* C02: every thread is in at most one place, and a READY thread that is not in the middle of
 \* being switched out is in exactly one (never lost, never duplicated)
